@@ -22,7 +22,7 @@ pub fn run_c14(args: &Args) -> i32 {
   net::set_policy_drop_all();
   let mut rep = Report::new(
     args,
-    "messages of 1-5 submessages built through MessageBuilder (data_msg, data_frag_msg, gap_msg, heartbeat_msg, ts_msg, dst_submessage), create_submessage and direct structs (INFO_SRC, INFO_REPLY with 0-3 unicast and an optional multicast locator list) with boundary sequence numbers, inline-QoS lists (known and vendor PIDs, value lengths of every residue mod 4), payload lengths 0..300 of every residue mod 4, number sets with 0..256 bits and members at the window edges, per-submessage endianness; plus standalone SequenceNumberSet/FragmentNumberSet cases; distinct = hash of the serialized bytes; non-trivial = message with >=2 submessages or a payload/bitmap-carrying submessage",
+    "messages of 1-5 submessages built through MessageBuilder (data_msg, data_frag_msg, gap_msg, heartbeat_msg, ts_msg, dst_submessage), create_submessage and direct structs (INFO_SRC, INFO_REPLY with 0-3 unicast and an optional multicast locator list) with boundary sequence numbers, inline-QoS lists (known and vendor PIDs, value lengths of every residue mod 4), payload lengths 0..300 of every residue mod 4, number sets with 0..256 bits and members at the window edges, per-submessage endianness; plus standalone SequenceNumberSet/FragmentNumberSet cases; plus number sets parsed from bytes as another implementation may send them (random bits also beyond numBits in the last bitmap word): forward and backward iteration must report exactly the bits below numBits; distinct = hash of the serialized bytes; non-trivial = message with >=2 submessages or a payload/bitmap-carrying submessage",
   );
   rep.assume("round-trip equality ignores original_bytes and compares parameter values / payload up to <=3 trailing zero bytes (RTPS padding); generated values never end in a zero byte so padding is unambiguous");
   rep.assume("a submessage that is followed by another must end on a 4-byte boundary; the final one may have any length (DATAFRAG is not padded and is always sent last)");
@@ -35,6 +35,59 @@ pub fn run_c14(args: &Args) -> i32 {
     }
     let cseed = seed.wrapping_mul(0x9E3779B97F4A7C15) ^ (0x1414u64 << 48) ^ i;
     let tag = || json!({"case": {"seed": seed, "stream": 0x1414, "index": i}});
+    if i % 20 == 3 {
+      // ---- number sets as another implementation may send them: random bits also beyond numBits in the last word
+      let mut rng = crate::prng::Rng::derive(seed, 0x1415, i);
+      let is_sn = rng.chance(1, 2);
+      let nb: u32 = match rng.below(4) {
+        0 => *rng.pick(&[1u32, 3, 31, 33, 63, 65, 255]),
+        1 => 32 * rng.below(9) as u32,
+        _ => rng.below(257) as u32,
+      };
+      let base: i64 = if is_sn { *rng.pick(&[1i64, 5, (1i64 << 32) - 3, 1 << 33]) } else { *rng.pick(&[1i64, 2, 1000]) };
+      let words = ((nb + 31) / 32) as usize;
+      let bm: Vec<u32> = (0..words).map(|_| match rng.below(4) { 0 => 0, 1 => u32::MAX, 2 => 0x4000_007f, _ => rng.next() as u32 }).collect();
+      let mut bytes = vec![];
+      if is_sn {
+        bytes.extend_from_slice(&((base >> 32) as i32).to_le_bytes());
+        bytes.extend_from_slice(&(base as u32).to_le_bytes());
+      } else {
+        bytes.extend_from_slice(&(base as u32).to_le_bytes());
+      }
+      bytes.extend_from_slice(&nb.to_le_bytes());
+      for w in &bm {
+        bytes.extend_from_slice(&w.to_le_bytes());
+      }
+      let expect: Vec<i64> = (0..nb).filter(|o| bm[(*o / 32) as usize] >> (31 - o % 32) & 1 == 1).map(|o| base + o as i64).collect();
+      acc.evaluations += 1;
+      acc.count("foreign_numberset_cases", 1);
+      if nb % 32 != 0 && bm.last().map_or(false, |w| w & (u32::MAX >> (nb % 32)) != 0) {
+        acc.count("foreign_numberset_cases_with_bits_set_beyond_numbits", 1);
+      }
+      let rp = || json!({"case": {"seed": seed, "stream": 0x1415, "index": i}, "kind": if is_sn { "SequenceNumberSet" } else { "FragmentNumberSet" }, "bytes_le": hex(&bytes), "base": base, "num_bits": nb, "bitmap": bm});
+      match if is_sn { codec::sn_set_from_bytes(&bytes) } else { codec::fn_set_from_bytes(&bytes) } {
+        None => acc.violate("C14/numberset:foreign-set-does-not-parse", json!({"num_bits": nb}), rp()),
+        Some((fwd, rev, is_empty)) => {
+          if fwd.iter().any(|m| *m < base || *m >= base + nb as i64) {
+            acc.violate("C14/numberset:foreign-set:member-outside-the-numbits-window", json!({"reported": fwd, "expected": expect}), rp());
+          } else if fwd != expect {
+            acc.violate("C14/numberset:foreign-set:membership-not-preserved-within-window", json!({"reported": fwd, "expected": expect}), rp());
+          }
+          let mut r2 = rev.clone();
+          r2.reverse();
+          if r2 != fwd {
+            acc.violate("C14/numberset:foreign-set:forward-and-backward-iteration-disagree", json!({"forward": fwd, "backward": rev}), rp());
+          }
+          if is_empty != expect.is_empty() && fwd == expect {
+            acc.violate("C14/numberset:foreign-set:is_empty-disagrees-with-membership", json!({"is_empty": is_empty, "expected": expect}), rp());
+          }
+          if nb > 0 {
+            acc.distinct.insert(crate::prng::fnv64(&bytes));
+          }
+        }
+      }
+      return;
+    }
     if i % 5 == 4 {
       // ---- number sets
       let sc = if i % 10 == 4 { codec::sn_set_case(cseed) } else { codec::fn_set_case(cseed) };
@@ -252,6 +305,7 @@ pub fn run_c14(args: &Args) -> i32 {
   });
   rep.require("messages", 10_000);
   rep.require("numberset_cases", 2000);
+  rep.require("foreign_numberset_cases_with_bits_set_beyond_numbits", 1000);
   rep.require("big_endian_submessages", 1000);
   for k in ["kind_0x15", "kind_0x16", "kind_0x07", "kind_0x08", "kind_0x06", "kind_0x12", "kind_0x09", "kind_0x0e", "kind_0x0f"] {
     rep.require(k, 500);
